@@ -259,6 +259,7 @@ func (d *Disk) Create(dir, name string, size uint64) (types.WritableFile, error)
 		d.dirOps = append(d.dirOps, dirOp{create: true, name: name, ino: ino})
 	}
 	d.Hist.CreatedNames[name]++
+	d.checkCreateLocked(name)
 	d.open++
 	h := &handle{d: d, ino: ino, name: name, writable: true, created: true}
 	if err := d.post(c); err != nil {
@@ -535,6 +536,30 @@ func (m *Meta) CommitState(st types.PersistentState) error {
 	nm.State = copyState(st)
 	d.meta = &nm
 	return d.post(c)
+}
+
+// checkCreateLocked: a segment file may only be created for an ID that the
+// durable metadata has already allocated and lists (C13: identities are reserved
+// durably before files with them exist, so a crash cannot lead to a reuse).
+func (d *Disk) checkCreateLocked(name string) {
+	var base, id uint64
+	if n, err := fmt.Sscanf(name, "%020d-%016x.wal", &base, &id); err != nil || n != 2 {
+		return
+	}
+	st := d.meta.State
+	if id >= st.NextSegmentID {
+		d.IDViolations = append(d.IDViolations, fmt.Sprintf("create-before-commit: file created for segment ID %d while the durable NextSegmentID is %d", id, st.NextSegmentID))
+		return
+	}
+	listed := false
+	for _, s := range st.Segments {
+		if s.ID == id && s.BaseIndex == base {
+			listed = true
+		}
+	}
+	if !listed {
+		d.IDViolations = append(d.IDViolations, fmt.Sprintf("create-unlisted: file %s created for a segment the durable metadata does not list", name))
+	}
 }
 
 // checkIDsLocked is the online segment-identity monitor (C13).
